@@ -93,6 +93,17 @@ func cmdWorker(args []string) int {
 	if *deadline > 0 {
 		dl = time.Now().Add(time.Duration(*deadline) * time.Second)
 	}
+	// watchdog: a single transition that runs for minutes (unbounded recursion in the code under test, a lock that is
+	// never released) must not hang the check
+	go func() {
+		for {
+			time.Sleep(5 * time.Second)
+			if d, path := explore.Stalled(); d > 150*time.Second {
+				fmt.Printf("STALLED transition running for %s: %s\n", d.Round(time.Second), strings.Join(path, " ; "))
+				os.Exit(7)
+			}
+		}
+	}()
 	var res *explore.Result
 	if j.Custom != nil {
 		res = j.Custom(*shard, *shards, dl)
